@@ -7,5 +7,7 @@ CONSTANTS
   GuardFix = TRUE
   CleanupFix = FALSE
   SerialReg = FALSE
+  MaxBatch = 0
+  RetryEnds = TRUE
 INVARIANTS AllGone NoCrash
 CHECK_DEADLOCK FALSE
